@@ -423,7 +423,8 @@ class Gen:
             seen.add(key)
             members.append(m)
         if r.random() < 0.4 and "null" not in seen:
-            members.insert(0, "null")
+            # the null branch in string form or, sometimes, in dict form (a union default of null must find it either way)
+            members.insert(0, {"type": "null"} if r.random() < 0.3 else "null")
         return members
 
     def union_key(self, ns, m):
